@@ -142,7 +142,11 @@ func (w *raceWatch) poll(prop string, out *plan.Outcome) {
 			if !strings.Contains(rep, "DATA RACE") {
 				continue
 			}
-			out.Violations = append(out.Violations, plan.Violation{Prop: prop, Clause: "race", Loc: raceSig(rep), Detail: rep})
+			sig := raceSig(rep)
+			if sig == "" {
+				continue // both accesses are in harness code (e.g. reading results of a task that is stuck)
+			}
+			out.Violations = append(out.Violations, plan.Violation{Prop: prop, Clause: "race", Loc: sig, Detail: rep})
 		}
 	}
 }
@@ -158,7 +162,7 @@ func raceSig(rep string) string {
 		for _, line := range strings.Split(blk, "\n") {
 			m := frameRe.FindStringSubmatch(line)
 			if m != nil && !strings.HasPrefix(m[2], "verifsim") {
-				fns = append(fns, m[2]+"."+strings.TrimSuffix(m[3], "()"))
+				fns = append(fns, m[2]+"."+trimArgs(m[3]))
 				break
 			}
 		}
@@ -196,7 +200,24 @@ func batch(t *testing.T, p *Prop) {
 		seed := seedFor(*fBase, idx)
 		pl := gen(p, seed)
 		os.WriteFile(journal, pl.JSON(), 0o644)
-		out := execute(t, p, pl, false)
+		var out *plan.Outcome
+		if *fLayer == "race" {
+			// the testing package fails (FailNow) a test in which the race detector fired: keep that
+			// inside a subtest so that the batch goes on
+			t.Run("run", func(st *testing.T) {
+				defer func() {
+					if out == nil {
+						out = &plan.Outcome{Counters: map[string]int64{}}
+					}
+				}()
+				out = execute(st, p, pl, false)
+			})
+			if out == nil {
+				out = &plan.Outcome{Counters: map[string]int64{}}
+			}
+		} else {
+			out = execute(t, p, pl, false)
+		}
 		rw.poll(p.ID, out)
 		res.Runs++
 		res.NextIndex = idx + *fStride
